@@ -84,11 +84,12 @@ structure St where
   files : Files
   nums : List Int        -- chanNumbers: the channel number of each channel (fixed once the source runs)
   running : Bool         -- the source runs (a CoreLoop serves requests and blocks)
+  blocked : List Nat     -- base paths below which no directory can be made (e.g. below a regular file)
 deriving Repr, DecidableEq
 
-def St.init (proj : List Bool) (pre : List Run) (nums : List Int) : St :=
+def St.init (proj : List Bool) (pre : List Run) (nums : List Int) (blocked : List Nat := []) : St :=
   { ws := { active := false, paused := false, base := none, pat := none, l22 := false, off := false, l3 := false },
-    chans := proj.map Chan.new, dirs := pre, files := [], nums, running := true }
+    chans := proj.map Chan.new, dirs := pre, files := [], nums, running := true, blocked }
 
 /-! ### Request strings -/
 
@@ -222,6 +223,8 @@ def startTarget (s : St) (path : Option Nat) (l22 off l3 : Bool) (map : Option N
     match pathOr path s.ws.base with
     | none => none                                       -- BasePath is the empty string
     | some p =>
+      if s.blocked.contains p then none                  -- makeDirectory: MkdirAll fails
+      else
       match makeDirectory s.dirs p with
       | none => none                                     -- out of 4-digit numbers
       | some i => some ⟨p, i⟩
@@ -502,10 +505,11 @@ def badMsg (k : Nat) : Bad → String
 
 def opTag (op : Op) (err : Bool) : List String :=
   match op with
-  | .req r _ l22 off l3 map =>
+  | .req r path l22 off l3 map =>
     match classify r, err with
     | .start, false => ["start-ok"] ++ (if off && !l22 && !l3 then ["start-off-only"] else []) ++ (if map.isSome then ["start-with-map"] else [])
     | .start, true => ["start-rejected"] ++ (if map.isSome then ["start-rejected-with-map"] else [])
+                        ++ (if path == some 2 then ["start-rejected-blocked-path"] else [])
     | .stop, _ => ["stop"]
     | .pause, _ => ["pause"]
     | .unpause none, _ => ["unpause"]
@@ -537,13 +541,14 @@ def oracleAll (o : OSt) (implFiles : Files) : List (InOp × ImplRes) → Nat →
     | .ok o' => oracleAll o' files' rest (k + 1)
 
 def runLine (ts : List String) : Verdict :=
-  let p : P (List Bool × List Run × List Int × List (InOp × ImplRes)) := do
+  let p : P (List Bool × List Run × List Int × List Nat × List (InOp × ImplRes)) := do
     P.kw "nch"; let nch ← P.nat
     P.kw "npre"; let _ ← P.nat
     P.kw "nsamp"; let _ ← P.nat
     P.kw "proj"; let proj ← P.rep P.bool nch
     P.kw "nums"; let nums ← P.rep P.int nch
     P.kw "pre"; let pre ← P.list (do let a ← P.nat; let b ← P.nat; pure (⟨a, b⟩ : Run))
+    P.kw "blocked"; let blocked ← P.list P.nat
     P.kw "ops"; let ops ← P.list parseInOp
     P.kw "OUT"
     let t ← P.peek
@@ -554,11 +559,11 @@ def runLine (ts : List String) : Verdict :=
     let n ← P.nat
     if n != ops.length then P.fail "op count mismatch"
     let rs ← parseAll ops
-    pure (proj, pre, nums, rs)
+    pure (proj, pre, nums, blocked, rs)
   match P.run p ts with
   | .error e =>
     if e.startsWith "CRASH" then .viol s!"C06:crash the implementation crashed or hung: {e}" else .bad e
-  | .ok (proj, pre, nums, rs) =>
+  | .ok (proj, pre, nums, blocked, rs) =>
     -- 1. the oracle over the whole history (implementation's observations only)
     match oracleAll (OSt.init proj pre) [] rs 0 with
     | some m => .viol m
@@ -593,6 +598,6 @@ def runLine (ts : List String) : Verdict :=
                     ++ (if !res.ws.active then ["withheld-inactive"] else [])
             | _ => opTag op res.err
           go s' files' rest' (k + 1) (tags ++ t)
-    go (St.init proj pre nums) [] rs 0 []
+    go (St.init proj pre nums blocked) [] rs 0 []
 
 end DastardV.C06
